@@ -413,7 +413,10 @@ func (c *clientImpl) List(ctx context.Context, minKeyInclusive string, maxKeyExc
 		}
 
 		go func() {
-			_ = wg.Wait(ctx)
+			// Wait for all the shards also when the context is cancelled: a shard
+			// that is still delivering its (cancellation) error would otherwise
+			// send on a closed channel
+			_ = wg.Wait(context.Background())
 			close(ch)
 		}()
 	}
